@@ -141,18 +141,23 @@ def ensure_facts(repo=None, all_targets=False, verbose=False):
     out = os.path.join(CACHE, "facts", key)
     marker = os.path.join(out, "COMPLETE")
     if os.path.exists(marker):
+        try:
+            os.utime(out, None)
+        except OSError:
+            pass
         return out, th
-    with open(os.path.join(CACHE, "extract.lock"), "w") as lk:
+    tdir = os.path.join(CACHE, "target")
+    if os.path.realpath(repo) != "/repo":
+        tdir = os.environ.get("CTE_TARGET_DIR") or os.path.join(CACHE, "target-scratch")
+    # one extraction at a time per cargo target directory and per tree (scratch copies with their own target directory run in parallel)
+    with open(os.path.join(CACHE, "extract-%s.lock" % hashlib.sha256(tdir.encode()).hexdigest()[:12]), "w") as lk:
         fcntl.flock(lk, fcntl.LOCK_EX)
         if os.path.exists(marker):
             return out, th
-        tmp = out + ".tmp"
+        tmp = out + ".tmp%d" % os.getpid()
         shutil.rmtree(tmp, ignore_errors=True)
         os.makedirs(tmp)
         t0 = time.time()
-        tdir = os.path.join(CACHE, "target")
-        if os.path.realpath(repo) != "/repo":
-            tdir = os.environ.get("CTE_TARGET_DIR") or os.path.join(CACHE, "target-scratch")
         _run_extraction(repo, tmp, tdir, MEMBERS, all_targets=all_targets)
         have = set()
         for f in os.listdir(tmp):
@@ -168,6 +173,9 @@ def ensure_facts(repo=None, all_targets=False, verbose=False):
         with open(os.path.join(tmp, "META.json"), "w") as fh:
             json.dump({"tree_hash": th, "repo": repo, "extract_s": round(time.time() - t0, 2),
                        "all_targets": all_targets, "targets": sorted("%s:%s" % t for t in have)}, fh)
+        if os.path.exists(marker):
+            shutil.rmtree(tmp, ignore_errors=True)      # another process (other target directory) finished the same tree first
+            return out, th
         shutil.rmtree(out, ignore_errors=True)
         os.rename(tmp, out)
         open(marker, "w").write("ok")
@@ -175,13 +183,21 @@ def ensure_facts(repo=None, all_targets=False, verbose=False):
     return out, th
 
 
-def _gc_cache(keep, max_sets=6):
+def _gc_cache(keep, max_sets=40, min_age_s=3600):
+    """drop old fact sets of scratch trees: only sets that nobody touched for an hour, oldest first, beyond max_sets"""
     base = os.path.join(CACHE, "facts")
+    now = time.time()
     sets = [os.path.join(base, d) for d in os.listdir(base) if os.path.isdir(os.path.join(base, d))]
-    sets = [s for s in sets if s != keep and not s.endswith(".tmp") and "fixture" not in os.path.basename(s)]
+    sets = [s for s in sets if s != keep and ".tmp" not in os.path.basename(s) and "fixture" not in os.path.basename(s)]
     sets.sort(key=os.path.getmtime)
     while len(sets) > max_sets:
-        shutil.rmtree(sets.pop(0), ignore_errors=True)
+        s0 = sets.pop(0)
+        try:
+            if now - os.path.getmtime(s0) < min_age_s:
+                break
+        except OSError:
+            continue
+        shutil.rmtree(s0, ignore_errors=True)
 
 
 def ensure_fixture_facts():
